@@ -7,10 +7,12 @@ Local Open Scope string_scope.
 Definition src_dets : list (string * (bytes -> Z -> res bool)) := [
   ("Tar", src_Tar); ("CRX", src_CRX); ("WebM", src_WebM); ("Mkv", src_Mkv);
   ("Doc", src_Doc); ("Ppt", src_Ppt); ("Xls", src_Xls); ("Pub", src_Pub); ("Msg", src_Msg); ("Msi", src_Msi);
-  ("Xlsx", src_Xlsx); ("Docx", src_Docx); ("Pptx", src_Pptx); ("Jar", src_Jar); ("APK", src_APK)].
+  ("Xlsx", src_Xlsx); ("Docx", src_Docx); ("Pptx", src_Pptx); ("Jar", src_Jar); ("APK", src_APK);
+  ("Text", src_Text); ("Svg", src_Svg); ("Php", src_Php)].
 
 (* true: the function walks the input with index-driven loops (each raw[i] costs O(i) on lists), so the correspondence
-   runs it on headers of at most 128 bytes; the theorems about it hold for every input *)
+   runs it on headers of at most 128 bytes, and the other translated functions on headers of at most 640 bytes (a tar
+   block and its neighbourhood); the theorems about them hold for every input *)
 Definition src_evals : list (option (bool * (bytes -> Z -> res bool))) :=
   map (fun o => match o with
                 | Some (DFunc name) => match assoc name src_dets with Some f => Some (false, f) | None => None end
@@ -23,7 +25,8 @@ Definition src_evals : list (option (bool * (bytes -> Z -> res bool))) :=
 
 Definition src_verdicts (raw : bytes) (lim : N) : list (option (res bool)) :=
   let small := (length raw <=? 128)%nat in
+  let medium := (length raw <=? 640)%nat in   (* zlen is O(n) on lists and the translated functions call it often *)
   map (fun o => match o with
-                | Some (costly, f) => if costly && negb small then None else Some (f raw (Z.of_N lim))
+                | Some (costly, f) => if (costly && negb small) || negb medium then None else Some (f raw (Z.of_N lim))
                 | None => None
                 end) src_evals.
